@@ -30,6 +30,29 @@ CLAIMS = {
         technique="Lean 4 proof (case analysis over failure/interruption events, prefix rejection, zero-index "
                   "shard) + exhaustive call-site fault and kill injection on the real accessors",
         ref="DESIGN.md §6 C18"),
+    "C19": dict(
+        text="Lean 4 theorems at the command level: the all-in-one command and the documented sequence build "
+             "the same info for every full-resolution info, option pair and number of levels, given that the "
+             "info file written by one stand-alone command is parsed back unchanged by the next (JSON round "
+             "trip, hypothesis); every scale of the generated info carries the requested encoding and, for "
+             "compressed_segmentation, a block size, because the parameters are set before the first scale is "
+             "copied (and a kernel-checked witness that the opposite order does not); compressed_segmentation "
+             "promotes 8/16-bit types to uint32 and nothing else; exit status 0 iff every step of the command "
+             "succeeded, for every list of steps; re-running the same chunk writes leaves every chunk decoding "
+             "to the same array (any history, any codec); compute-scales is idempotent and leaves level L+1 = "
+             "downscale(level L) for every downscaler and number of levels. Voxel-level content of the steps "
+             "is C01/C06/C07/C13. Tie/oracle: both programs run on synthetic NIfTI volumes with the same "
+             "options (encoding, type, downscaling method, --flat, --no-gzip, --input-min/max), infos compared "
+             "as JSON values and with the Lean info model, every chunk of every scale decoded and compared; "
+             "steps repeated; convert-chunks twice; scale-stats read-only; sharded sequences as subprocesses; "
+             "obstructed destinations must give a non-zero status.",
+        note="Trusted: Lean kernel; standard axioms; hand-written command-level model (the equality of the two "
+             "programs is a composition argument; the tie is the differential run of the two real programs on "
+             "every case); JSON round trip is a hypothesis; process start-up, argparse and logging are "
+             "exercised, not modelled.",
+        technique="Lean 4 proof (command-level composition, idempotence, exit status) + differential execution "
+                  "of the two real programs and of repeated steps",
+        ref="DESIGN.md §6 C19"),
     "C20": dict(
         text="Lean 4 theorems over an exact model of readable_count (float64 rounding of the count, "
              "round-half-even formatting, prefix table regenerated from the source): for every n < 999·2^60 "
